@@ -7,6 +7,8 @@ from . import gen, configs
 from .harness import do_count, expected_domain_error, BudgetExceeded
 
 MAX_PARTIAL_EVENTS = 1500
+# (precision, threshold kind) of the fixed-point rules, for the exact-hit family G3b
+EXACT_HIT = {'wigm-prf': (4, 'eps'), 'wigm-prf-batch': (4, 'eps'), 'cfer': (5, 'eps'), 'cfer-batch': (5, 'eps'), 'scotland': (5, 'int'), 'mpls': (4, 'int')}
 DEFAULT_WEIGHTS = dict(G1=3, G2=3, G3=2, G4=2, G5=1, G6=2, G7=2, G9=1, G10=2)
 
 
@@ -21,6 +23,9 @@ class Case:
 
     def hash(self, extra=''):
         return gen.canon_hash(self.s, configs.describe(self.opts) + extra)
+
+
+OTHER_BLT = '4 2 5 1 2 0 4 2 3 0 3 3 1 0 2 4 2 0 1 1 4 0 0 "Ann" "Bo" "Cat" "Di" "Other election"'
 
 
 def budget_for(ctx):
@@ -40,7 +45,14 @@ def make_case(ctx, rng, weights=None, rules=None, snap_ballots=False, render=Fal
     if opts.get('arithmetic') == 'rational' and opts['rule'] in ('meek', 'warren'):
         big = False
         weights = dict(G1=1, G6=1)
-    s = gen.pick(rng, weights, big)
+    s = None
+    hit = EXACT_HIT.get(opts['rule'])
+    if opts['rule'] == 'wigm' and opts.get('arithmetic') == 'fixed' and opts.get('precision', 9) >= 1:
+        hit = (opts['precision'], 'int' if opts.get('integer_quota') else 'eps')
+    if hit and rng.random() < 0.12 and 'G3' in weights:
+        s = gen.g3b_exact_hit(rng, *hit)        # a transfer landing exactly on / beside the threshold
+    if s is None:
+        s = gen.pick(rng, weights, big)
     if opts.get('arithmetic') == 'rational' and opts['rule'] in ('meek', 'warren'):
         # tiny profiles only: denominators double each iteration
         s['lines'] = s['lines'][:10]
@@ -52,7 +64,11 @@ def make_case(ctx, rng, weights=None, rules=None, snap_ballots=False, render=Fal
                      withdrawn=[c for c in s['withdrawn'] if c <= 5], undeclared=[c for c in s['undeclared'] if c <= 5])
         gen.make_valid(s, rng)
     blt = gen.render(s)
-    run = do_count(blt, opts, budget=budget or budget_for(ctx), snap_ballots=snap_ballots, render=render)
+    other = None
+    if rng.random() < 0.08:
+        # a caller embedding the package may construct another election (same rule and options) before counting this one
+        other = OTHER_BLT
+    run = do_count(blt, opts, budget=budget or budget_for(ctx), snap_ballots=snap_ballots, render=render, construct_also=other)
     return Case(s, opts, blt, run)
 
 
